@@ -70,6 +70,9 @@ type Exec struct {
 	initRun  map[*ssa.Package]bool
 	lenBounds map[int]int64
 	exactFromHex bool
+	namePrefix string
+	prefixStack []string
+	choiceMemo map[string]int
 	abstractAddr map[int]bool
 	pcSet    map[int]bool
 	subst    map[int]*Term
